@@ -239,12 +239,24 @@ func checkC09(c *mc.Ctx) {
 			Bound: fmt.Sprintf("unit of %d bytes: every bit flip, every pair of bit flips (quick: units <= 64 bytes), every byte x 3 substitutions, bursts 2..32 bits (2 patterns), every truncation, extensions 1..8 x 4 fills", len(unit))})
 	}
 	c09Mux(c)
-	c.Ev.Require("unit-still-valid", "unit-rejected-by-reference", "mux-pmt-validated", "mux-pmt-too-large")
+	c.Ev.Require("unit-still-valid", "unit-rejected-by-reference", "mux-pmt-validated", "mux-pmt-too-large", "mux-pmt-retransmitted")
 }
 
 // c09Mux: sections the Muxer emits carry a correct section_length and CRC.
 func c09Mux(c *mc.Ctx) {
+	var validate1 func(what string, m *astits.Muxer, w *RecWriter, model *astits.PMTData, lengthMode int) bool
+	// every configuration is emitted three times: fresh, retransmitted unchanged, and retransmitted after
+	// a WriteData call used the Muxer's buffers in between
 	validate := func(what string, m *astits.Muxer, w *RecWriter, model *astits.PMTData, lengthMode int) {
+		if !validate1(what, m, w, model, lengthMode) {
+			return
+		}
+		validate1(what+" (retransmitted)", m, w, model, lengthMode)
+		m.WriteData(&astits.MuxerData{PID: 0x100, PES: &astits.PESData{Data: bytes.Repeat([]byte{0x02}, 300), Header: &astits.PESHeader{OptionalHeader: &astits.PESOptionalHeader{MarkerBits: 2}}}})
+		validate1(what+" (retransmitted after WriteData)", m, w, model, lengthMode)
+		c.Ev.Class("mux-pmt-retransmitted", 1)
+	}
+	validate1 = func(what string, m *astits.Muxer, w *RecWriter, model *astits.PMTData, lengthMode int) (emitted bool) {
 		from := len(w.Buf)
 		_, err := m.WriteTables()
 		if err != nil {
@@ -252,27 +264,27 @@ func c09Mux(c *mc.Ctx) {
 				c.Rep.Report("mux-failed-tables-left-bytes", map[string]any{"kind": "mux-pmt", "what": what, "message": "WriteTables failed but wrote bytes"})
 			}
 			c.Ev.Class("mux-pmt-too-large", 1)
-			return
+			return false
 		}
 		raw, rest := ref.SplitPackets(w.Buf[from:])
 		if len(raw) != 2 || len(rest) != 0 {
 			c.Rep.Report("mux-table-packets", map[string]any{"kind": "mux-pmt", "what": what, "message": fmt.Sprintf("%d packets + %d bytes", len(raw), len(rest))})
-			return
+			return false
 		}
 		for i, kind := range []string{"PAT", "PMT"} {
 			p, err := ref.DecodePkt(raw[i])
 			if err != nil {
 				c.Rep.Report("mux-table-packet-undecodable", map[string]any{"kind": "mux-pmt", "what": what, "message": err.Error()})
-				return
+				return false
 			}
 			secs, framed := ref.ParseUnit(p.Payload)
 			if !framed || len(secs) != 1 || !secs[0].Complete || secs[0].Kind != kind {
 				c.Rep.Report("mux-section-length:"+kind, map[string]any{"kind": "mux-pmt", "what": what, "length_mode": lengthMode, "bytes": mc.Hex(p.Payload), "message": "section_length does not match the bytes written after it (or framing broken)"})
-				return
+				return false
 			}
 			if !secs[0].CRCOK {
 				c.Rep.Report("mux-crc:"+kind, map[string]any{"kind": "mux-pmt", "what": what, "length_mode": lengthMode, "bytes": mc.Hex(p.Payload), "message": "CRC_32 of the emitted section is not accepted by the reference decoder"})
-				return
+				return false
 			}
 			if !allFF(p.Payload[1+len(secs[0].Bytes):]) {
 				c.Rep.Report("mux-padding:"+kind, map[string]any{"kind": "mux-pmt", "what": what, "message": "bytes after the section are not 0xFF"})
@@ -285,6 +297,7 @@ func c09Mux(c *mc.Ctx) {
 			}
 		}
 		c.Ev.Class("mux-pmt-validated", 1)
+		return true
 	}
 	var n int64
 	// streams 0..N until too large
